@@ -143,10 +143,33 @@ func cmdCheck(args []string) int {
 			for _, m := range se.Msgs {
 				fmt.Println("  ", m)
 			}
+			// No obligation can be generated from contracts that do not apply to the code any more. That is not a
+			// verdict on the property; but a change that breaks the property must not slip through either: the
+			// property's replay drivers (real-code tests under /verif/replay) are run against the tree, and a failure
+			// they reproduce is reported as the violation, under the obligation name "contracts-apply".
+			rc := 0
+			seenDrv := map[string]bool{}
+			for i := range pc.Drivers {
+				d := &pc.Drivers[i]
+				if seenDrv[d.File+":"+d.Test] {
+					continue
+				}
+				seenDrv[d.File+":"+d.Test] = true
+				out, confirmed := run.runDriver(d, map[string]string{})
+				if confirmed {
+					o := &Obligation{Name: "contracts-apply", Kind: "stale", Goal: TTrue}
+					path := run.writeReplayFile(o, &FuncResult{Name: "(contracts of " + *prop + ")"}, "the contracts no longer type-check against the tree ("+strings.Join(se.Msgs, "; ")+"); replay driver "+d.File+":"+d.Test+" reproduced a failure on the real code:\n"+out)
+					fmt.Printf("VIOLATION property=%s replay=%s\n", *prop, path)
+					fmt.Printf("  REPLAY-CONFIRMED by %s:%s on the real code\n", d.File, d.Test)
+					rc = 1
+				} else {
+					fmt.Printf("  replay driver %s:%s did not reproduce a failure on this tree\n", d.File, d.Test)
+				}
+			}
 			if !*noEvidence {
 				run.writeEvidence(nil)
 			}
-			return 0
+			return rc
 		}
 		fmt.Fprintln(os.Stderr, "load:", err)
 		return 2
